@@ -57,6 +57,22 @@ PROPS = {
         "modelled": COMMON_MODELLED,
         "assumptions": ["source and destination are distinct objects (s.Transfer(s) does not terminate; outside the model)"],
     },
+    "C05": {
+        "lean": ["Stackage.Props.C05"],
+        "streams": [{"name": "eqpair", "quick": 3000, "thorough": 60000}, {"name": "equnit", "quick": 1500, "thorough": 30000}],
+        "rule": "eqpair: random trees (every kind, capacity, case-folding, nested stacks / conditions in native, alias, alias-with-String and pointer form, "
+                "operators incl. none and user-defined) whose leaves are drawn type-directed from ~70 Go types ([]int, [3]int, []string, []*int incl. nil "
+                "elements, map[string]int, structs with exported / embedded / private fields, **int, typed nils, funcs, chans, NaN, declared scalar types, "
+                "[]any, *any, uintptr ...); each tree is paired with an independently rebuilt copy (30%), with itself (same pointer) or with a copy carrying "
+                "exactly one point mutation: 60% at a position drawn uniformly from ALL positions of ALL leaves (scalar, slice/array element, map key/value, "
+                "element added/removed/swapped, slice capacity, private field), else a kind, capacity, keyword, operator, expression, sibling swap, element "
+                "added/removed/replaced; a.IsEqual(b) and b.IsEqual(a) are observed as eq / ne / PANIC. equnit: the same leaf pairs straight into valuesEqual. "
+                "non-trivial = not the self pair and at least one element in the tree",
+        "modelled": COMMON_MODELLED + ["float / complex values carried as the text Go prints plus a NaN flag", "channels by (type, id) identity, funcs by type",
+                                       "map iteration in list order (verdict is order-independent)"],
+        "assumptions": ["operands are independently built (no shared backing arrays); Stack/Condition values inside slice, map or struct leaves are outside the universe",
+                        "user Operator methods and EqualityPolicy closures are pure and do not panic"],
+    },
 }
 
 
@@ -128,7 +144,13 @@ def _c03(out):
     return " ; ".join(steps)
 
 
+def _c05(out):
+    """C05 names only: equal, not equal, panic"""
+    return re.sub(r"ne:[A-Za-z0-9?]+", "ne", out)
+
+
 PROJ = {
+    "C05": _c05,
     "C01": _keep("ret", "L", "I", "F", "B", "E"),
     "C08": _keep("ret", "L", "I", "F", "B", "E", "c", "a", "u"),
     "C03": _c03,
@@ -151,6 +173,8 @@ def in_scope(pid, stream, tags):
 def nontrivial(pid, payload):
     ops = payload.rsplit(" | ", 1)[-1].split(" ; ")
     kinds = {o.split(" ")[0] for o in ops if o}
+    if pid == "C05":
+        return not payload.endswith("| self") and " [ ]" not in payload.split(" | ")[0][:12]
     if pid == "C15":
         return " [ ]" not in payload.split(" | ")[0]     # non-empty source
     if pid in ("C13", "C14"):
